@@ -12,7 +12,7 @@ META = dict(
                 'and the emitted list is compared with the list definition of the property statement, written directly on Python lists: first/last/take(n); distinct = first occurrences; '
                 'distinct_until_changed = heads of runs (with and without key_mapper); lag(n) = (items[max(0,i-n)], items[i]); pad_start / pad_end / start_with padding around a non-empty sequence; '
                 'batch(n) = chunks of exactly n plus one non-empty remainder, concatenation = input; sort = stable ordered permutation. One obligation per operator x mode x length x parameter value; the stateful ones also after an aborted first subscription of the same operator objects (retry) and on a second clean subscription.',
-    bounds=dict(quick='N <= 5 items (int or None; distinct: ints in 0..2 because the real code hashes them), take n in 0..N+1, lag 1..3, batch 1..N+1, pad size 0..2 value None/explicit; sort N <= 3; long-but-narrow: 9 / 17 groups live at once with the operator placed after a filter (a group live without state while the tables grow), a key with more than 8 different values',
+    bounds=dict(quick='N <= 5 items (int or None; distinct: ints in 0..2 because the real code hashes them, plus <= 3 (thorough 4) items picked by the solver from a palette holding different values of equal hash), take n in 0..N+1, lag 1..3, batch 1..N+1, pad size 0..2 value None/explicit; sort N <= 3; long-but-narrow: 9 / 17 groups live at once with the operator placed after a filter (a group live without state while the tables grow), a key with more than 8 different values',
                 thorough='N <= 7 (sort N <= 4, distinct N <= 5)'),
     outside='N above the bound; key mappers that raise; unhashable items for distinct',
     assumptions=['list definitions in vp/props/C10.py transcribe the property statement'],
@@ -163,6 +163,37 @@ def distinct_long(p):
     return mk('distinct_long', [('x', 'int')], ['0 <= x <= %d' % m], body)
 
 
+PALETTE = [-1, -2, 0, 2 ** 61 - 1, 5]       # hash(-1) == hash(-2) and hash(0) == hash(2**61 - 1) in CPython: different values of equal hash
+
+
+def distinct_palette(p):
+    """distinct over values the solver picks from a palette that contains DIFFERENT values of EQUAL hash (the real code keeps the seen values in a hash table;
+    symbolic integers cannot go through hash() without being realised, so the solver chooses palette positions and the items are the concrete objects):
+    first occurrences by ==, never by hash"""
+    n, mode = p['n'], p['mode']
+
+    def pick(j):
+        for k in range(len(PALETTE) - 1):
+            if j == k:
+                return PALETTE[k]
+        return PALETTE[-1]
+
+    def body(a):
+        items = [pick(j) for j in a]
+        exp = _first_occ(items)
+        if mode == 'group':
+            log = []
+            err = []
+            D.src(items).pipe(rs.state.with_memory_store([rs.ops.group_by(lambda i: i == 5, [rs.ops.distinct(), D.tap(log)])])).subscribe(on_error=lambda e: err.append(repr(e)))
+            buckets, wf = D.lifetimes(log)
+            order = _first_occ([i == 5 for i in items])
+            expg = [_first_occ([i for i in items if (i == 5) == g]) for g in order]
+            return (not err and wf and buckets == expg) or fail(op='distinct', mode=mode, items=items, observed=buckets, expected=expg, err=err)
+        got = D.run_mux(items, [rs.ops.distinct()])
+        return got == exp or fail(op='distinct', mode=mode, items=items, observed=got, expected=exp)
+    return mk('distinct_palette', [('j%d' % i, 'int') for i in range(n)], ['0 <= j%d <= %d' % (i, len(PALETTE) - 1) for i in range(n)], body)
+
+
 def seqop_many(p):
     """K groups live at once under group_by (K crosses table growth steps 8 / 16 / 64), the sequence operator placed after a filter: group 0 is created by an item
     the filter drops - it is live, but the operator has seen nothing for it - while all the other groups are created and receive an item (the state tables
@@ -190,7 +221,7 @@ def seqop_many(p):
     return mk('seq_many_' + op, [('v%d' % i, 'int') for i in range(4)], pre, body)
 
 
-FAMILIES = {'seqop': seqop, 'sort': sort, 'distinct_long': distinct_long, 'seqop_many': seqop_many}
+FAMILIES = {'seqop': seqop, 'sort': sort, 'distinct_long': distinct_long, 'distinct_palette': distinct_palette, 'seqop_many': seqop_many}
 
 
 def obligations(tier, seed):
@@ -246,6 +277,10 @@ def obligations(tier, seed):
                           bound=dict(items=n, groups=2, values='ints' if op != 'distinct' else 'ints 0..2', arg=arg, mode='group_by')))
     for m in ((9, 17) if q else (9, 17, 33, 70)):
         obs.append(Ob(PROP, 'distinct_long', dict(m=m), budget=b * 2, group='distinct_long', bound=dict(different_values=m, symbolic='a further item in 0..%d, repeated' % m)))
+    for n in ((2, 3) if q else (2, 3, 4)):
+        for mode in ('mux', 'group'):
+            obs.append(Ob(PROP, 'distinct_palette', dict(n=n, mode=mode), budget=b * 2, group='distinct: equal-hash values',
+                          bound=dict(items=n, mode=mode, values='solver-chosen positions in the palette %r (pairs of different values with equal hash)' % (PALETTE,))))
     for n in range(0, (3 if q else 4) + 1):
         obs.append(Ob(PROP, 'sort', dict(n=n), budget=b, bound=dict(items=n, keys='0..2')))
         if n >= 2:
